@@ -14,7 +14,7 @@ git -C /repo worktree add --detach "$TMP/wt" HEAD >/dev/null 2>&1 || { echo "can
 props="$*"; [ -z "$props" ] && props=$(ls selftest/patches)
 fail=0; n=0
 for prop in $props; do
-  for pf in selftest/patches/$prop/*.diff; do
+  for pf in selftest/patches/$prop/${PATTERN:-*}.diff; do
     [ -f "$pf" ] || continue
     n=$((n+1))
     git -C "$TMP/wt" checkout -q -- . && git -C "$TMP/wt" clean -fdq
